@@ -356,6 +356,10 @@ def r5_record_ranges(ctx):
         ctx.ob(fi.where, "a record ends one past its raw line end (the carriage-return adjustment of field ends must not shorten the record: a selected CRLF record keeps its newline)",
                ok, c[:160], key=f"C04-R5|{qn}|entry-ends")
         ok = c in (sym.canon(sym.parse_expr(f"{fi.params[2]}[1:].reshape(-1, {fi.params[3]})[:, -1] + 1")), sym.canon(sym.parse_expr(f"RaggedArray({fi.params[2]}[1:], {fi.params[3]})[:, -1] + 1")))
+        if not ok:
+            from ..affine import same_map, R as _R
+            _N = sym.Poly.atom(fi.params[3])
+            ok = same_map(env["entry_ends"], fi.params[2], fi.params[3], _R * _N + _N, 1, 1, {})
         ctx.ob(fi.where, "record end = position of the line's last boundary + 1", ok, c[:160], key=f"C04-R5|{qn}|entry-ends-form")
     ctx.floor("record-range builders", n, 2)
     gx = ix.func("bionumpy.io.one_line_buffer", "OneLineBuffer._get_buffer_extractor")
